@@ -16,4 +16,13 @@ exe = os.path.join(bdir, "%s_r%s" % (binname, ring))
 r = subprocess.run(["make", "-s", "-C", HERE, "B=" + bdir, exe])
 if r.returncode:
     sys.exit(2)
-sys.exit(subprocess.run([exe] + argv + ["--replay", path], cwd=HERE).returncode)
+tmp = None
+for i, a in enumerate(argv):
+    if i and argv[i - 1] == "--feed-hex" and len(a) > 100000:      # one argument string is limited to 128 KiB
+        tmp = os.path.join(bdir, "feed_%d.hex" % os.getpid())
+        open(tmp, "w").write(a)
+        argv[i] = "@" + tmp
+rc = subprocess.run([exe] + argv + ["--replay", path], cwd=HERE).returncode
+if tmp:
+    os.unlink(tmp)
+sys.exit(rc)
